@@ -80,14 +80,14 @@ def run(ctx):
     ob('R14.2').run(fa, 'area(Arc + closing Line): the arc is integrated as its chord polyline', th2, judge2,
                     allowed_raises=('AssertionError',), opts=arc_opts(mdl, {'presign': [(Rat.csym('A.start'), '-+')]}))
 
-    def th2b(it):
+    def th2b(it, NCH=3):
         arc = sym_arc(it, 'A', False, True)
         close = it.construct('path.Line', arc.attrs['end'], arc.attrs['start'])
         p = it.construct('path.Path', arc, close)
         out = {}
         it.call_hooks['path.Arc.length'] = lambda it2, a, k: Rat.sym('ALEN')
-        it.ext_hooks['numpy.ceil'] = lambda it2, a, k: 3          # three chords
-        it.ext_hooks['numpy.linspace'] = lambda it2, a, k: out.update(ls=a) or [Rat.const(Fr(i, 3)) for i in range(4)]
+        it.ext_hooks['numpy.ceil'] = lambda it2, a, k: NCH          # NCH chords (1: an arc no longer than one chord still contributes its chord)
+        it.ext_hooks['numpy.linspace'] = lambda it2, a, k: out.update(ls=a) or [Rat.const(Fr(i, NCH)) for i in range(NCH + 1)]
         it.call_hooks['path.Arc.point'] = lambda it2, a, k: Rat.csym('PT_%s' % to_rat(a[1]).key().replace('/', '_'))
 
         def awa(it2, a, k):
@@ -97,21 +97,23 @@ def run(ctx):
         it.call_method(p, 'area')
         return out, arc
 
-    def judge2b(v):
+    def judge2b(v, NCH=3):
         out, arc = v
         segs = out.get('segs')
-        if not segs or len(segs) != 4:
-            return False, 'expected 3 chords + the closing line, got %r segments' % (segs and len(segs))
+        if not segs or len(segs) != NCH + 1:
+            return False, 'expected %d chord(s) + the closing line, got %r segments' % (NCH, segs and len(segs))
         ls = out.get('ls')
         pairs = []
         if ls is not None:
-            pairs += [('linspace from', ls[0], 0), ('linspace to', ls[1], 1), ('linspace count', ls[2], 4)]
-        pts = [Rat.csym('PT_%s' % Rat.const(Fr(i, 3)).key().replace('/', '_')) for i in range(4)]
-        for i in range(3):
+            pairs += [('linspace from', ls[0], 0), ('linspace to', ls[1], 1), ('linspace count', ls[2], NCH + 1)]
+        pts = [Rat.csym('PT_%s' % Rat.const(Fr(i, NCH)).key().replace('/', '_')) for i in range(NCH + 1)]
+        for i in range(NCH):
             pairs += [('chord %d start' % i, segs[i][0], pts[i]), ('chord %d end' % i, segs[i][1], pts[i + 1])]
         return decide_all_equal(pairs)
-    ob('R14.2').run(fa, 'seg2lines: n chords through point(k/n), k = 0..n', th2b, judge2b, allowed_raises=('AssertionError',),
-                    opts=arc_opts(mdl, {'presign': [(Rat.csym('A.start'), '-+')]}))
+    for NCH_ in ((1, 2, 3, 5) if ctx.tier == 'thorough' else (1, 2, 3)):
+        ob('R14.2').run(fa, 'seg2lines: n chords through point(k/n), k = 0..n (n = %d)' % NCH_, lambda it, n_=NCH_: th2b(it, n_),
+                        lambda v, n_=NCH_: judge2b(v, n_), allowed_raises=('AssertionError',),
+                        opts=arc_opts(mdl, {'presign': [(Rat.csym('A.start'), '-+')]}))
 
     # ---------------------------------------------------------------- R14.3
     fe = mdl.func('path.path_encloses_pt')
